@@ -482,7 +482,9 @@ def b_type(I, a, k):
 
 
 def b_super(I, a, k):
-    raise Unsupported('super()')
+    if len(a) == 2 and isinstance(a[0], ClassRef) and isinstance(a[1], Ref) and a[1].kind == 'obj':
+        return SuperV(a[0].info, a[1])
+    raise Unsupported('super() without explicit (class, instance)')
 
 
 def b_property(I, a, k):
